@@ -208,8 +208,8 @@ impl Harness for Consumer {
     }
     fn cases(&self, tier: Tier) -> u64 {
         match tier {
-            Tier::Quick => 40_000,
-            Tier::Thorough => 2_000_000,
+            Tier::Quick => 400_000,
+            Tier::Thorough => 20_000_000,
         }
     }
     fn gen(&self, rng: &mut Rng, _tier: Tier) -> ConsumerCase {
@@ -384,8 +384,8 @@ impl Harness for MphfSerial {
     }
     fn cases(&self, tier: Tier) -> u64 {
         match tier {
-            Tier::Quick => 6_000,
-            Tier::Thorough => 400_000,
+            Tier::Quick => 60_000,
+            Tier::Thorough => 4_000_000,
         }
     }
     fn gen(&self, rng: &mut Rng, _tier: Tier) -> MphfCase {
